@@ -35,7 +35,8 @@ CLAIM = {
             'water-filling and in the external-interference variants), the Moore-Penrose receive filter gives '
             'W.newH = diag(power mask), the whitening and stream-reduction receive filters invert the effective '
             'channel of their user, the reported stream counts are the precoder widths, and a reduction matrix '
-            'inside the noise eigenspace removes the external interference (W_k.E_k = 0).',
+            'inside the noise eigenspace removes the external interference (W_k.E_k = 0); all of it is covariant '
+            'under a common gain c != 0 on the channel (same precoders, effective channel times c).',
     'note': 'trusted: numpy/LAPACK kernels and doWF / calc_whitening_matrix / the metric functions (contracts checked '
             'numerically per case, not proved here: doWF is C12, whitening is C20; C09 needs only p >= 0, some p > 0 '
             'and invertible whitening matrices), binary64 rounding (correspondence within 1e-9 of the absolute-value '
@@ -45,7 +46,23 @@ CLAIM = {
             'variance" (checked per case; the rank-counting argument behind it is not formalised); the Moore-Penrose '
             'conditions of pinv and matrix_rank = (K-1)N on full-rank channels are checked, not proved.  The compiled '
             'whole-method model op for block_diagonalize is run for K.N <= 9 (12 in a sample of thorough cases) because '
-            'the closure-based model costs O(T^6); all its steps are compared for every size.',
+            'the closure-based model costs O(T^6); all its steps are compared for every size.  Robustness classes: '
+            'R1 element types (narrow ints / float16 / float32 / 0-d scalars for K, iPu, noise, pe, num_streams, packet '
+            'length, antenna counts; int8..int64 / uint8 / float32 / complex64 channel arrays) and R2 layouts (Fortran, '
+            'transposed, strided, reversed, offset views) - theorem value_semantics on the model side (results are '
+            'functions of the logical values only), twin oracle (same result and non-truncating dtype as the '
+            'float64/complex128 twin) + the first-principles oracles + the correspondence on exact-typed cases; size-0 / '
+            'list inputs are rejected by the code (no state to corrupt).  R3 immutability / aliasing - oracle only '
+            '(inputs, channel object and solver snapshot before/after, np.shares_memory of every output with every input '
+            'and channel buffer, earlier outputs after later calls), model side: set_metric_copies_needed_keys.  R4 rejected '
+            'calls - theorems set_metric_rejected_unchanged / metric_history + correspondence of setter histories (state, '
+            'exception, path taken) + oracle (continue the history, compare with a clean object).  R5 boundary values '
+            '(iPu = 0, K = 1, N = 1, noise 0.0 after a positive one, pe = 0, num_streams 1 and N) - oracle and '
+            'correspondence.  R6 scale (channel 1e-12..1e12, powers 1e-12..1e12) - theorem scale_covariance + oracle + '
+            'correspondence, all comparisons relative.  R7 long-lived objects (solver and channel objects re-used, '
+            're-randomised, re-initialised, path loss switched, attributes and metric changed, one channel shared by '
+            'several solvers) - theorems set_metric_like_fresh / metric_history for the configuration, oracle (equal to '
+            'fresh objects + property) and correspondence (tapped run on the long-lived objects) for the rest.',
 }
 
 EPS = 2.220446049250313e-16
@@ -268,7 +285,159 @@ class Gen:
 
     def params(self):
         r = self.rng
-        return (10.0 ** r.uniform(-2, 2), 10.0 ** r.uniform(-4, 1))
+        ipu = 10.0 ** r.uniform(-2, 2)
+        if r.chance(0.25):          # R6: powers in another unit (pW ... TW)
+            ipu *= r.choice([1e-12, 1e-6, 1e6, 1e12])
+        return (ipu, 10.0 ** r.uniform(-4, 1))
+
+    # ---- robustness classes
+    def int_matrix(self, m, n, lo=-6, hi=6, square=True):
+        for _ in range(500):
+            a = self.rs.randint(lo, hi + 1, size=(m, n)).astype(float)
+            if not square or (np.linalg.matrix_rank(a) == m and np.linalg.cond(a) <= 1e3):
+                return a
+        raise core.Infra('no full-rank integer matrix found')
+
+    def exact_case(self, variant, shape=None, metric=None, nonneg=False, cplx=False):
+        """a case whose values are representable in every element type (small integers)"""
+        r = self.rng
+        K, N = shape or self.shape(maxT=12)
+        T = K * N
+        lo = 0 if nonneg else -6
+        h = self.int_matrix(T, T, lo, 9 if nonneg else 6)
+        if cplx:
+            for _ in range(100):
+                hc = h + 1j * self.int_matrix(T, T, lo, 6, square=False)
+                if np.linalg.cond(hc) <= 1e3:
+                    h = hc
+                    break
+        case = {'variant': variant, 'K': K, 'N': N, 'H': enc(h), 'iPu': float(r.choice([1, 2, 3, 5, 8])),
+                'nv': float(r.choice([1, 2, 4])), 'gen': 'exact-int', 'scale': 1.0}
+        if variant == 'bd':
+            case['method'] = r.choice(['wf', 'nowf'])
+            return case
+        src = r.choice([[1], [1], [2], [1, 1]])
+        if sum(src) > N:
+            src = [1]
+        e = self.int_matrix(T, sum(src), lo, 4, square=False)
+        if cplx:
+            e = e + 1j * self.int_matrix(T, sum(src), lo, 4, square=False)
+        case.update({'E': enc(e), 'src': src, 'pe': float(r.choice([1, 2, 3]))})
+        if variant == 'enh':
+            case.update({'metric': metric or r.choice(METRICS), 'ns': r.randint(1, N), 'mod': ['PSK', 4], 'plen': 120})
+        return case
+
+    def deviations(self):
+        """every (field, type) deviation; the first entries reach every coarse class, the rest is shuffled"""
+        scal = INT_SCALARS + ['float32', 'float16', 'pyfloat', '0d']
+        ints = [x for x in INT_SCALARS if x != '0d-int']
+        allv = [(f, t) for f in ('iPu', 'nv', 'pe') for t in scal] + [(f, t) for f in ('K', 'ns', 'plen') for t in ints] + \
+            [('Nr', t) for t in ('uint8', 'int16', 'int32', 'int64')] + [('H', t) for t in ARRAY_TYPES] + \
+            [('layout', t) for t in LAYOUTS]
+        head = [('iPu', 'int8'), ('H', 'int32'), ('H', 'float32'), ('layout', 'fortran'), ('iPu', 'float16'), ('nv', '0d'),
+                ('H', 'complex64'), ('layout', 'strided'), ('pe', 'uint8'), ('H', 'int16'), ('K', 'int8'), ('iPu', 'float32')]
+        rest = [x for x in allv if x not in head]
+        self.rng.shuffle(rest)
+        return head + rest
+
+    def typed_case(self, exact_only=False, dev=None):
+        """R1 / R2: one deviation (element type or memory layout) from the float64 / complex128 twin"""
+        r = self.rng
+        if dev is None:
+            dev = r.choice(self.deviations())
+        f, t = dev
+        if exact_only and f == 'H' and t in ('float32', 'complex64'):
+            t = {'float32': 'int64', 'complex64': 'complex128'}[t]
+        variant = r.choice(['bd', 'bd', 'white', 'enh', 'enh'])
+        if f in ('pe', 'Nr') and variant == 'bd':
+            variant = r.choice(['white', 'enh'])
+        if f in ('ns', 'plen'):
+            variant = 'enh'
+        nonneg = cplx = False
+        if f == 'H':
+            nonneg = t == 'uint8'
+            cplx = t in ('complex64', 'complex128')
+        elif f == 'layout':
+            cplx = r.chance(0.5)
+        metric = None
+        if f == 'ns':
+            metric = r.choice(['naive', 'fixed'])
+        if f == 'plen':
+            metric = 'effective_throughput'
+        case = self.exact_case(variant, metric=metric, nonneg=nonneg, cplx=cplx)
+        case['rb'] = {f: t}
+        return case
+
+    def history_case(self, variant=None, metric=None):
+        """R7: the case is run on a solver (and channel object) that has already served other channels,
+        metrics and attribute values"""
+        r = self.rng
+        variant = variant or r.choice(['bd', 'white', 'enh', 'enh'])
+        shape = self.shape(maxT=12)
+        if variant == 'bd':
+            case = self.bd_case(shape)
+            case['method'] = r.choice(['wf', 'nowf'])
+            case.pop('cov_scale', None)
+        else:
+            case = self.ext_case(variant, metric=metric, shape=shape)
+        hist = []
+        for _ in range(r.randint(1, 3)):
+            if variant == 'bd':
+                st = self.bd_case(shape)
+                hist.append({'H': st['H'], 'iPu': st['iPu'], 'nv': st['nv'], 'wf': r.chance(0.5)})
+            else:
+                st = self.ext_case(variant, shape=shape)
+                step = {'H': st['H'], 'E': st['E'], 'src': case['src'] if st['src'] != case['src'] and r.chance(0.5) else st['src'],
+                        'iPu': st['iPu'], 'nv': st['nv'], 'pe': st['pe']}
+                if sum(step['src']) != dec(st['E']).shape[1]:
+                    step['src'] = st['src']
+                if variant == 'enh':
+                    step.update({'metric': r.choice(METRICS), 'ns': r.randint(1, shape[1]), 'mod': st['mod'], 'plen': st['plen']})
+                if r.chance(0.3):
+                    step['how'] = 'randomize'
+                    step['seed'] = r.randint(0, 1 << 30)
+                if r.chance(0.25):
+                    K = shape[0]
+                    step['pathloss'] = (10.0 ** self.rs.uniform(-2, 0, size=(K, K + len(step['src'])))).tolist()
+                hist.append(step)
+        case['history'] = hist
+        return case
+
+    def rejected_case(self):
+        r = self.rng
+        case = self.ext_case('enh', metric='None', shape=(r.randint(2, 3), 2))
+        n = r.randint(4, 9)
+        ops = [list(r.choice(METRIC_OPS)) for _ in range(n)]
+        if not any(not op_is_valid(tuple(o)) for o in ops):
+            ops[r.below(n)] = list(r.choice([o for o in METRIC_OPS if not op_is_valid(o)]))
+        case['ops'] = ops
+        return case
+
+    def boundary_case(self, what=None):
+        r = self.rng
+        case = self.bd_case((r.randint(2, 3), r.randint(1, 3)))
+        case.pop('cov_scale', None)
+        case['boundary'] = what or r.choice(['iPu=0', 'K=1', 'noise-changed'])
+        case['zero'] = r.choice([0, 0.0])
+        return case
+
+    def shared_case(self):
+        r = self.rng
+        case = self.ext_case('enh', metric='None', shape=(r.randint(2, 3), r.randint(2, 3)))
+        case['src'] = [1]
+        case['seed'] = r.randint(0, 1 << 30)
+        case['nv'] = max(case['nv'], 1e-3) if case.get('scale', 1.0) == 1.0 else case['nv']
+        case['scale'] = 1.0
+        case['nv'] = 10.0 ** r.uniform(-3, 0)
+        steps = []
+        names = ['white'] + METRICS
+        for _ in range(r.randint(3, 6)):
+            order = [r.choice(names) for _ in range(r.randint(1, 3))]
+            steps.append([r.choice(['randomize', 'randomize', 'init', 'pathloss', 'pathloss-off']), order])
+        if steps[0][0] not in ('randomize', 'init'):
+            steps[0][0] = 'init'          # the channel object needs a realisation before anything else
+        case['steps'] = steps
+        return case
 
     def shape(self, maxT=16):
         while True:
@@ -277,7 +446,7 @@ class Gen:
             if K * N <= maxT:
                 return K, N
 
-    SCALES = [1e-9, 1e-7, 1e-6, 1e-4, 1.0, 1e3, 1e6]
+    SCALES = [1e-12, 1e-9, 1e-7, 1e-6, 1e-4, 1.0, 1e3, 1e6, 1e12]
 
     def scale(self, scale=None):
         """overall scale of the whole channel (a common path loss / gain); block diagonalisation is
@@ -314,8 +483,14 @@ class Gen:
             e = e * c           # the interferer sees the same path loss (else: only the desired links are scaled)
         if follow:
             nv = nv * c * c
+        pe = 10.0 ** r.uniform(-2, 2)
+        # keep the interference-to-noise ratio within what binary64 can whiten / separate (<= 1e8, the range the
+        # unscaled generator spans): beyond ~1e15 the covariance pe.E.E^H + nv.I is numerically singular
+        inr = pe * np.linalg.norm(e, 2) ** 2 / nv
+        if inr > 1e8:
+            pe = pe * 1e8 / inr * 10.0 ** r.uniform(-6, 0)
         case = {'variant': variant or r.choice(['white', 'enh', 'enh', 'enh']), 'K': K, 'N': N, 'H': enc(h),
-                'E': enc(e), 'src': src, 'iPu': ipu, 'nv': nv, 'pe': 10.0 ** r.uniform(-2, 2), 'gen': kind,
+                'E': enc(e), 'src': src, 'iPu': ipu, 'nv': nv, 'pe': pe, 'gen': kind,
                 'scale': c, 'noise_scaled': follow}
         if case['variant'] == 'enh':
             case['metric'] = metric or r.choice(METRICS)
@@ -328,16 +503,91 @@ class Gen:
 
 
 # ------------------------------------------------------------ running the code
-def make_channel(case):
-    bd, MU, _ = _impl()
+# A case may carry `rb` (robustness deviations: element types, memory layout — the VALUES stay those of the
+# float64 / complex128 twin) and `history` (earlier calls made on the SAME solver / channel objects).
+SCALAR_TYPES = {
+    'pyint': int, 'pyfloat': float, 'int8': np.int8, 'uint8': np.uint8, 'int16': np.int16, 'uint16': np.uint16,
+    'int32': np.int32, 'int64': np.int64, 'float32': np.float32, 'float16': np.float16,
+    '0d': lambda v: np.array(float(v)), '0d-int': lambda v: np.array(int(v)),
+}
+INT_SCALARS = ['pyint', 'int8', 'uint8', 'int16', 'uint16', 'int32', 'int64', '0d-int']
+ARRAY_TYPES = ['int8', 'int16', 'int32', 'int64', 'uint8', 'float32', 'complex64', 'float64', 'complex128']
+LAYOUTS = ['fortran', 'transposed', 'strided', 'reversed', 'offset']
+
+
+def typed(case, field, value):
+    t = case.get('rb', {}).get(field)
+    return value if t is None else SCALAR_TYPES[t](value)
+
+
+def laid_out(a, layout):
+    """the same values in another memory layout"""
+    if layout is None:
+        return a
+    if layout == 'fortran':
+        return np.asfortranarray(a)
+    if layout == 'transposed':
+        return np.ascontiguousarray(a.T).T
+    if layout == 'strided':
+        big = np.zeros((2 * a.shape[0], 3 * a.shape[1]), dtype=a.dtype)
+        big[::2, ::3] = a
+        return big[::2, ::3]
+    if layout == 'reversed':
+        return np.ascontiguousarray(a[::-1, ::-1])[::-1, ::-1]
+    if layout == 'offset':
+        big = np.full((a.shape[0] + 2, a.shape[1] + 3), 7, dtype=a.dtype)
+        big[1:-1, 2:-1] = a
+        return big[1:-1, 2:-1]
+    raise ValueError(layout)
+
+
+def arr_arg(case, a):
+    rb = case.get('rb', {})
+    if rb.get('H') is not None:
+        a = a.astype(rb['H']) if np.dtype(rb['H']).kind == 'c' or not np.iscomplexobj(a) else a
+        if np.dtype(rb['H']).kind != 'c' and np.iscomplexobj(a):
+            raise ValueError('complex values cannot be passed as ' + rb['H'])
+    return laid_out(a, rb.get('layout'))
+
+
+def h_arg(case):
+    """the channel matrix as it is handed to the code (element type / layout of the case)"""
+    return arr_arg(case, dec(case['H']))
+
+
+_LIVE = {}
+
+
+def apply_metric(o, case):
+    m = case['metric']
+    if m in ('naive', 'fixed'):
+        o.set_ext_int_handling_metric(m, {'num_streams': typed(case, 'ns', case['ns'])})
+    elif m == 'effective_throughput':
+        o.set_ext_int_handling_metric(m, {'modulator': make_modulator(case['mod']),
+                                          'packet_length': typed(case, 'plen', case['plen'])})
+    elif m == 'capacity':
+        o.set_ext_int_handling_metric(m)
+    else:
+        o.set_ext_int_handling_metric(None if case.get('none_obj') else 'None')
+
+
+def init_channel(ch, case):
     K, N = case['K'], case['N']
-    h = dec(case['H'])
-    e = dec(case['E'])
-    ch = MU()
-    nr = np.ones(K, dtype=int) * N
+    rb = case.get('rb', {})
+    nr = np.ones(K, dtype=rb.get('Nr', int)) * N
+    nr = nr.astype(rb.get('Nr', int))
     src = case['src']
-    ch.init_from_channel_matrix(np.hstack([h, e]), nr, nr.copy(), K, src[0] if len(src) == 1 else list(src))
-    ch.noise_var = case['nv']
+    full = arr_arg(case, np.hstack([dec(case['H']), dec(case['E'])]))
+    ch.init_from_channel_matrix(full, nr, nr.copy(), K, src[0] if len(src) == 1 else list(src))
+    ch.noise_var = typed(case, 'nv', case['nv']) if case.get('ch_nv', 'set') == 'set' else None
+
+
+def make_channel(case):
+    if id(case) in _LIVE and _LIVE[id(case)].get('channel') is not None:
+        return _LIVE[id(case)].pop('channel')
+    _, MU, _ = _impl()
+    ch = MU()
+    init_channel(ch, case)
     return ch
 
 
@@ -347,23 +597,63 @@ def make_modulator(spec):
     return {'PSK': lambda: f.PSK(M), 'QAM': lambda: f.QAM(M), 'BPSK': lambda: f.BPSK()}[kind]()
 
 
-def make_solver(case):
+def fresh_solver(case):
     bd, _, _ = _impl()
-    K = case['K']
+    K = typed(case, 'K', case['K'])
+    ipu, nv = typed(case, 'iPu', case['iPu']), typed(case, 'nv', case['nv'])
     if case['variant'] == 'bd':
-        return bd.BlockDiagonalizer(K, case['iPu'], case['nv'])
+        return bd.BlockDiagonalizer(K, ipu, nv)
+    pe = typed(case, 'pe', case['pe'])
     if case['variant'] == 'white':
-        return bd.WhiteningBD(K, case['iPu'], case['nv'], case['pe'])
-    o = bd.EnhancedBD(K, case['iPu'], case['nv'], case['pe'])
-    m = case['metric']
-    if m in ('naive', 'fixed'):
-        o.set_ext_int_handling_metric(m, {'num_streams': case['ns']})
-    elif m == 'effective_throughput':
-        o.set_ext_int_handling_metric(m, {'modulator': make_modulator(case['mod']), 'packet_length': case['plen']})
-    elif m == 'capacity':
-        o.set_ext_int_handling_metric(m)
-    else:
-        o.set_ext_int_handling_metric(None if case.get('none_obj') else 'None')
+        return bd.WhiteningBD(K, ipu, nv, pe)
+    o = bd.EnhancedBD(K, ipu, nv, pe)
+    apply_metric(o, case)
+    return o
+
+
+def make_solver(case):
+    """the solver the case is run on: a fresh one, or (with `history`) a long-lived one that has already
+    served other channels / configurations; the channel object of the history is handed out by make_channel"""
+    hist = case.get('history')
+    if not hist:
+        return fresh_solver(case)
+    bd, MU, _ = _impl()
+    first = dict(case)
+    first.update(hist[0])
+    first.pop('history', None)
+    o = fresh_solver(first)
+    ch = MU() if case['variant'] != 'bd' else None
+    for step in hist:
+        st = dict(case)
+        st.update(step)
+        st.pop('history', None)
+        o.iPu, o.noise_var = st['iPu'], st['nv']
+        if case['variant'] != 'bd':
+            o.pe = st['pe']
+            if case['variant'] == 'enh':
+                apply_metric(o, st)
+            if step.get('how') == 'randomize':
+                ch.set_channel_seed(step['seed'])
+                ch.randomize(st['N'], st['N'], st['K'], sum(st['src']))
+                ch.noise_var = st['nv']
+            else:
+                init_channel(ch, st)
+            if step.get('pathloss'):
+                pl = np.array(step['pathloss'], dtype=float)
+                ch.set_pathloss(pl[:, :st['K']], pl[:, st['K']:])
+            o.block_diagonalize_no_waterfilling(ch)
+            if step.get('pathloss'):
+                ch.set_pathloss(None)
+        else:
+            (o.block_diagonalize if step.get('wf', True) else o.block_diagonalize_no_waterfilling)(arr_arg(st, dec(st['H'])))
+    # now the configuration of the case itself, on the same objects
+    o.iPu, o.noise_var = typed(case, 'iPu', case['iPu']), typed(case, 'nv', case['nv'])
+    if case['variant'] != 'bd':
+        o.pe = typed(case, 'pe', case['pe'])
+        if case['variant'] == 'enh':
+            apply_metric(o, case)
+        init_channel(ch, case)
+        _LIVE[id(case)] = {'channel': ch}
     return o
 
 
@@ -408,12 +698,13 @@ def o_bd_wf(case):
     K, N, ipu = case['K'], case['N'], case['iPu']
     h = dec(case['H'])
     o = make_solver(case)
-    new_h, ms = o.block_diagonalize(h)
+    new_h, ms = o.block_diagonalize(h_arg(case))
     if ms.shape != (K * N, K * N) or new_h.shape != (K * N, K * N):
         return ('shape:wf', 'Ms %s newH %s' % (ms.shape, new_h.shape))
     if not (np.all(np.isfinite(ms)) and np.all(np.isfinite(new_h))):
         return ('non-finite:wf', 'Ms / newH contain inf or nan')
-    nh_f, ms_f = bd.block_diagonalize(h, K, ipu, case['nv'])     # the module-level entry point
+    nh_f, ms_f = bd.block_diagonalize(h_arg(case), typed(case, 'K', K), typed(case, 'iPu', ipu),
+                                      typed(case, 'nv', case['nv']))     # the module-level entry point
     if not (np.array_equal(nh_f, new_h) and np.array_equal(ms_f, ms)
             and np.array_equal(bd.calc_receive_filter(new_h), o.calc_receive_filter(new_h))):
         return ('module-function-differs:wf', 'block_diagonalize(...) != BlockDiagonalizer(...).block_diagonalize(...)')
@@ -451,7 +742,7 @@ def o_bd_nowf(case):
     K, N, ipu = case['K'], case['N'], case['iPu']
     h = dec(case['H'])
     o = make_solver(case)
-    new_h, ms = o.block_diagonalize_no_waterfilling(h)
+    new_h, ms = o.block_diagonalize_no_waterfilling(h_arg(case))
     if ms.shape != (K * N, K * N) or new_h.shape != (K * N, K * N):
         return ('shape:nowf', 'Ms %s newH %s' % (ms.shape, new_h.shape))
     if not (np.all(np.isfinite(ms)) and np.all(np.isfinite(new_h))):
@@ -511,6 +802,9 @@ def o_ext(case):
         d = wk[k] @ heq
         sv = np.linalg.svd(heq, compute_uv=False)
         c = float(sv[0] / sv[-1]) * max(1.0, nrm(wk[k]) * nrm(heq))
+        if what == 'white':     # the filter is computed on the whitened channel: conditioning of the whitening enters
+            e_k0 = blk(e, k, N, 0)
+            c *= math.sqrt(float(np.linalg.cond(case['pe'] * e_k0 @ Hm(e_k0) + case['nv'] * np.eye(N))))
         if c <= 1e7 and not np.abs(d - np.eye(n)).max() <= 1e-9 * c * N:
             return ('rx-not-inverse:' + what, 'user %d: max |W_k H_k M_k - I| = %.3e' % (k, float(np.abs(d - np.eye(n)).max())))
         if what in ('enh-fixed', 'enh-capacity', 'enh-effective_throughput') and n < N:
@@ -554,10 +848,11 @@ def o_scale_covariance(case):
                         '|M M^H - M\' M\'^H|max = %.3e (limit %.3e)' % (c, k, float(np.abs(g1 - g2).max()), tol))
             e1 = blk(nh1, k, N, 0) @ Hm(blk(nh1, k, N, 0)) * abs(c) ** 2
             e2 = blk(nh2, k, N, 0) @ Hm(blk(nh2, k, N, 0))
-            lim = 1e-9 * tol_scale(h) * K * N * max(nrm(e1), 1e-300)
+            ref = max((abs(c) * nrm(nh1)) ** 2, 1e-300)     # relative to the whole effective channel (a user whose
+            lim = 1e-9 * tol_scale(h) * K * N * ref          # streams all got zero power has a zero block)
             if not np.abs(e1 - e2).max() <= lim:
                 return ('scale-covariance:' + what, 'channel x%g: effective channel of user %d is not c times the old one: '
-                        'relative %.3e' % (c, k, float(np.abs(e1 - e2).max() / max(nrm(e1), 1e-300))))
+                        'relative %.3e' % (c, k, float(np.abs(e1 - e2).max() / ref)))
     return None
 
 
@@ -565,7 +860,383 @@ def o_bd(case):
     return o_bd_wf(case) or o_bd_nowf(case)
 
 
+# ================================================================ robustness classes R1 - R7
+def run_case(case, which=None):
+    """outputs of the method the case addresses, as a list of arrays (on the case's own solver / channel objects)"""
+    o = make_solver(case)
+    if case['variant'] == 'bd':
+        fn = o.block_diagonalize if (which or case.get('method', 'wf')) == 'wf' else o.block_diagonalize_no_waterfilling
+        new_h, ms = fn(h_arg(case))
+        return [new_h, ms], o, None
+    ch = make_channel(case)
+    ms, wk, ns = o.block_diagonalize_no_waterfilling(ch)
+    return list(ms) + list(wk) + [np.asarray(ns)], o, ch
+
+
+def plain_twin(case):
+    t = {k: v for k, v in case.items() if k not in ('rb', 'history')}
+    return t
+
+
+def rb_class(case):
+    rb = case.get('rb', {})
+    return ','.join('%s=%s' % (k, rb[k]) for k in sorted(rb)) or 'plain'
+
+
+def variant_tag(case):
+    return case['variant'] + ('-' + case['metric'] if 'metric' in case else '') + \
+        (':' + case.get('method', 'wf') if case['variant'] == 'bd' else '')
+
+
+def narrow_array(case):
+    return case.get('rb', {}).get('H') in ('float32', 'complex64')
+
+
+def o_twin(case):
+    """R1 / R2: the same VALUES in another element type / memory layout give the same result as the
+    float64 / complex128 C-contiguous twin, in a dtype that does not truncate"""
+    cls = ('R2:' if set(case.get('rb', {})) <= {'layout'} else 'R1:') + rb_class(case) + ':' + variant_tag(case)
+    try:
+        got, _, _ = run_case(case)
+    except Exception as e:
+        return (cls + ':exception:' + type(e).__name__, repr(e)[:300])
+    ref, _, _ = run_case(plain_twin(case))
+    rtol = 1e-4 if narrow_array(case) else 1e-9
+    scale = max(nrm(x) for x in ref[:-1]) if case['variant'] != 'bd' else None
+    for i, (a, b) in enumerate(zip(got, ref)):
+        a, b = np.asarray(a), np.asarray(b)
+        if a.shape != b.shape:
+            return (cls + ':shape', 'output %d: %s, twin %s' % (i, a.shape, b.shape))
+        if b.dtype.kind in 'fc' and (a.dtype.kind not in 'fc' or a.dtype.itemsize < b.dtype.itemsize and not narrow_array(case)):
+            return (cls + ':dtype', 'output %d has dtype %s, twin %s' % (i, a.dtype, b.dtype))
+        if not np.all(np.isfinite(a)):
+            return (cls + ':non-finite', 'output %d' % i)
+        ref_n = max(nrm(b), 1e-300) if scale is None else max(nrm(b), 1e-300)
+        if not np.abs(a - b).max() <= rtol * ref_n * tol_scale(dec(case['H'])):
+            return (cls + ':differs', 'output %d differs from the float64 twin by %.3e (relative to its norm %.3e)'
+                    % (i, float(np.abs(a - b).max()), float(np.abs(a - b).max() / ref_n)))
+    return None
+
+
+def snapshot_channel(ch):
+    return {'big_H': np.array(ch.big_H, copy=True), 'Nr': np.array(ch.Nr, copy=True), 'Nt': np.array(ch.Nt, copy=True),
+            '_Nr': np.array(ch._Nr, copy=True), '_Nt': np.array(ch._Nt, copy=True), 'K': int(ch.K),
+            'noise_var': ch.noise_var, 'extIntK': int(ch.extIntK),
+            'pathloss': None if ch.pathloss is None else np.array(ch.pathloss, copy=True)}
+
+
+def same_snapshot(a, b):
+    for k in a:
+        x, y = a[k], b[k]
+        if isinstance(x, np.ndarray) or isinstance(y, np.ndarray):
+            if x is None or y is None or not (np.asarray(x).shape == np.asarray(y).shape and np.array_equal(x, y)):
+                return k
+        elif x != y:
+            return k
+    return None
+
+
+def solver_state(o):
+    st = {'num_users': o.num_users, 'iPu': o.iPu, 'noise_var': o.noise_var, 'pe': getattr(o, 'pe', None)}
+    if hasattr(o, '_metric_func_name'):
+        st['metric_name'] = o.metric_name
+        st['metric_func'] = getattr(o._metric_func, '__name__', None)
+        st['extra_args'] = sorted((k, v if isinstance(v, (int, float, np.integer)) else type(v).__name__)
+                                  for k, v in o._metric_func_extra_args.items())
+    return st
+
+
+def o_immutable(case):
+    """R3: inputs are not modified, outputs do not alias inputs / internal buffers, earlier outputs survive
+    later calls"""
+    cls = 'R3:' + variant_tag(case)
+    o = make_solver(case)
+    if case['variant'] == 'bd':
+        h_in = h_arg(case)
+        h_copy = np.array(h_in, copy=True)
+        outs = []
+        for fn in (o.block_diagonalize, o.block_diagonalize_no_waterfilling):
+            res = fn(h_in)
+            if not np.array_equal(h_in, h_copy):
+                return (cls + ':input-modified', fn.__name__ + ' changed the channel matrix it was given')
+            for a in res:
+                if np.shares_memory(a, h_in):
+                    return (cls + ':output-aliases-input', fn.__name__)
+            outs.append((res, [np.array(a, copy=True) for a in res]))
+        w = o.calc_receive_filter(outs[0][0][0])
+        if np.shares_memory(w, outs[0][0][0]) or not np.array_equal(outs[0][0][0], outs[0][1][0]):
+            return (cls + ':receive-filter-aliases-or-modifies-newH', '')
+        other = np.array(h_copy[::-1, :], copy=True)     # a later call on another channel
+        o.block_diagonalize(other)
+        o.block_diagonalize_no_waterfilling(other)
+        for res, snap in outs:
+            for a, b in zip(res, snap):
+                if not np.array_equal(a, b):
+                    return (cls + ':earlier-output-changed', 'an array returned earlier changed after a later call')
+        return None
+    ch = make_channel(case)
+    before = snapshot_channel(ch)
+    st_before = solver_state(o)
+    ms, wk, ns = o.block_diagonalize_no_waterfilling(ch)
+    k = same_snapshot(before, snapshot_channel(ch))
+    if k is not None:
+        return (cls + ':channel-modified:' + k, 'the call changed `%s` of the channel object' % k)
+    if solver_state(o) != st_before:
+        return (cls + ':solver-modified', '%s -> %s' % (st_before, solver_state(o)))
+    internal = [('big_H', ch.big_H), ('_Nr', ch._Nr), ('_Nt', ch._Nt), ('_H', ch._big_H_no_pathloss)]
+    for name, arr in [('Ns', ns)] + [('Ms[%d]' % i, m) for i, m in enumerate(ms)] + [('W[%d]' % i, m) for i, m in enumerate(wk)]:
+        for iname, iarr in internal:
+            if iarr is not None and np.shares_memory(np.asarray(arr), iarr):
+                return (cls + ':output-aliases-channel:' + name.split('[')[0] + ':' + iname,
+                        'returned %s shares memory with the channel object\'s %s' % (name, iname))
+    snap = [np.array(a, copy=True) for a in list(ms) + list(wk) + [np.asarray(ns)]]
+    # writing into the returned stream counts must not reach the channel object
+    ns_arr = np.asarray(ns)
+    if ns_arr.flags.writeable:
+        old = ns_arr.copy()
+        ns_arr[...] = 0
+        k = same_snapshot(before, snapshot_channel(ch))
+        ns_arr[...] = old
+        if k is not None:
+            return (cls + ':output-aliases-channel:Ns:' + k, 'writing into the returned Ns changed the channel object')
+    # later calls (same objects, new realisation and another solver on the same channel)
+    case2 = dict(case)
+    case2['H'] = enc(dec(case['H'])[::-1, :].copy())
+    init_channel(ch, case2)
+    o.block_diagonalize_no_waterfilling(ch)
+    for a, b in zip(list(ms) + list(wk) + [np.asarray(ns)], snap):
+        if not np.array_equal(np.asarray(a), b):
+            return (cls + ':earlier-output-changed', 'an array returned earlier changed after a later call')
+    return None
+
+
+METRIC_OPS = [
+    ('None', None), ('None-obj', None), ('capacity', None), ('naive', 2), ('naive', 1), ('fixed', 1), ('fixed', 2),
+    ('effective_throughput', 'ok'),
+    # rejected requests
+    ('naive', 'missing'), ('fixed', 'missing'), ('effective_throughput', 'no-modulator'),
+    ('effective_throughput', 'no-length'), ('effective_throughput', 'missing'), ('bogus', None), ('CAPACITY', None),
+]
+
+
+def do_metric_op(o, op):
+    """returns the exception type name (or None)"""
+    name, arg = op
+    try:
+        if name == 'None-obj':
+            o.set_ext_int_handling_metric(None)
+        elif arg == 'missing':
+            o.set_ext_int_handling_metric(name) if name != 'fixed' else o.set_ext_int_handling_metric(name, {})
+        elif name in ('naive', 'fixed'):
+            d = {'num_streams': arg, 'comment': 'caller data'}
+            o.set_ext_int_handling_metric(name, d)
+            d['num_streams'] = arg + 1          # the caller goes on using its dictionary (R3: no aliasing of inputs)
+            d['packet_length'] = 7
+        elif name == 'effective_throughput':
+            d = {'modulator': make_modulator(['PSK', 4]), 'packet_length': 120}
+            if arg == 'no-modulator':
+                del d['modulator']
+            if arg == 'no-length':
+                del d['packet_length']
+            o.set_ext_int_handling_metric(name, d)
+        else:
+            o.set_ext_int_handling_metric(name)
+    except Exception as e:
+        return type(e).__name__
+    return None
+
+
+def op_is_valid(op):
+    name, arg = op
+    return name in ('None', 'None-obj', 'capacity') or (name in ('naive', 'fixed') and isinstance(arg, int)) or \
+        (name == 'effective_throughput' and arg == 'ok')
+
+
+def o_rejected(case):
+    """R4: a rejected call leaves the solver exactly as it was, and the rest of the history behaves as on an
+    object that never saw the rejected call"""
+    bd, _, _ = _impl()
+    K, N = case['K'], case['N']
+    ops = [tuple(x) for x in case['ops']]
+    o = bd.EnhancedBD(K, case['iPu'], case['nv'], case['pe'])
+    clean = bd.EnhancedBD(K, case['iPu'], case['nv'], case['pe'])
+    ch = make_channel(case)
+    for i, op in enumerate(ops):
+        before = solver_state(o)
+        err = do_metric_op(o, op)
+        valid = op_is_valid(op)
+        tag = '%s/%s' % (op[0], op[1])
+        if valid and err is not None:
+            return ('R4:valid-request-rejected:' + tag, err)
+        if valid and op[0] in ('naive', 'fixed') and dict(solver_state(o)['extra_args']).get('num_streams') != op[1]:
+            return ('R3:metric-arguments-alias-caller-dict:' + op[0],
+                    'num_streams requested %r, object now uses %r after the caller changed ITS dictionary'
+                    % (op[1], dict(solver_state(o)['extra_args']).get('num_streams')))
+        if not valid:
+            if err is None:
+                return ('R4:invalid-request-accepted:' + tag, 'no exception')
+            if solver_state(o) != before:
+                return ('R4:rejected-call-changed-state:set_ext_int_handling_metric:' + tag,
+                        'state before %s, after the rejected call %s' % (before, solver_state(o)))
+        else:
+            do_metric_op(clean, op)
+        # a rejected block diagonalisation (rows not a multiple of the users / wrong object) in between
+        if i % 3 == 1:
+            before = solver_state(o)
+            try:
+                bd.BlockDiagonalizer.block_diagonalize_no_waterfilling(o, np.ones((K * N + 1, K * N)))
+                return ('R4:invalid-request-accepted:channel-rows-not-multiple-of-users', 'no exception')
+            except Exception:
+                pass
+            if solver_state(o) != before:
+                return ('R4:rejected-call-changed-state:block_diagonalize', '')
+        try:
+            a = o.block_diagonalize_no_waterfilling(ch)
+        except Exception as e:
+            return ('R4:history-raises-after:' + tag, 'after ops %s: %r' % (ops[:i + 1], e))
+        b = clean.block_diagonalize_no_waterfilling(ch)
+        for x, y in zip(list(a[0]) + list(a[1]) + [a[2]], list(b[0]) + list(b[1]) + [b[2]]):
+            if np.asarray(x).shape != np.asarray(y).shape or not np.array_equal(np.asarray(x), np.asarray(y)):
+                return ('R4:history-differs-from-clean-object-after:' + tag,
+                        'after ops %s the object does not behave like one that saw only the accepted requests' % (ops[:i + 1],))
+    return None
+
+
+def o_boundary(case):
+    """R5: degenerate parameter values where the property still says what must come out"""
+    bd, _, _ = _impl()
+    what = case['boundary']
+    K, N = case['K'], case['N']
+    h = dec(case['H'])
+    if what == 'iPu=0':
+        o = bd.BlockDiagonalizer(K, case['zero'], case['nv'])
+        for name, fn in (('wf', o.block_diagonalize), ('nowf', o.block_diagonalize_no_waterfilling)):
+            try:
+                with np.errstate(all='ignore'):
+                    new_h, ms = fn(h)
+            except Exception as e:
+                return ('R5:iPu=0:%s:exception:%s' % (name, type(e).__name__), repr(e)[:200])
+            if not (np.all(np.isfinite(ms)) and np.all(np.isfinite(new_h))):
+                return ('R5:iPu=0:%s:non-finite' % name, 'zero power must give the zero precoder, got nan / inf')
+            if np.abs(ms).max() != 0 or np.abs(new_h).max() != 0:
+                return ('R5:iPu=0:%s:power-exceeded' % name, 'max |Ms| = %.3e' % float(np.abs(ms).max()))
+        return None
+    if what == 'K=1':
+        o = bd.BlockDiagonalizer(1, case['iPu'], case['nv'])
+        hk = h[:N, :N]
+        for name, fn in (('wf', o.block_diagonalize), ('nowf', o.block_diagonalize_no_waterfilling)):
+            try:
+                new_h, ms = fn(hk)
+            except Exception as e:
+                return ('R5:K=1:%s:exception:%s' % (name, type(e).__name__), repr(e)[:200])
+            p = nrm(ms) ** 2
+            if not abs(p - case['iPu']) <= 1e-9 * case['iPu']:
+                return ('R5:K=1:%s:power' % name, 'power %r, iPu %r' % (p, case['iPu']))
+            if not np.abs(new_h - hk @ ms).max() <= 1e-9 * (np.abs(hk) @ np.abs(ms)).max():
+                return ('R5:K=1:%s:newH' % name, '')
+        return None
+    if what == 'noise-changed':
+        # the noise variance attribute changed to 0.0 / back on a long-lived object
+        o = bd.BlockDiagonalizer(K, case['iPu'], case['nv'])
+        first = o.block_diagonalize(h)
+        o.noise_var = case['zero']
+        r0 = o.block_diagonalize(h)
+        f0 = bd.BlockDiagonalizer(K, case['iPu'], case['zero']).block_diagonalize(h)
+        o.noise_var = case['nv']
+        again = o.block_diagonalize(h)
+        if not all(np.all(np.isfinite(x)) for x in r0):
+            return ('R5:noise_var=0:non-finite', '')
+        if not (np.array_equal(r0[1], f0[1]) and np.array_equal(again[1], first[1])):
+            return ('R5:noise_var=0:differs-from-fresh-object', '')
+        pw = np.array([nrm(blk(r0[1], k, N, 1)) ** 2 for k in range(K)])
+        if not (np.all(pw <= case['iPu'] * (1 + 1e-9)) and pw.max() >= case['iPu'] * (1 - 1e-9)):
+            return ('R5:noise_var=0:power', '%s' % pw.tolist())
+        return check_offdiag(h, [blk(r0[1], k, N, 1) for k in range(K)], N, 'R5:noise_var=0')
+    raise ValueError(what)
+
+
+def o_shared(case):
+    """R7: one channel object used by several long-lived solvers, re-randomised between calls, in any order;
+    every result equals the one of fresh objects with the current configuration and satisfies the property"""
+    bd, MU, _ = _impl()
+    K, N = case['K'], case['N']
+    rs = np.random.RandomState(case['seed'])
+    ch = MU()
+    solvers = {'white': bd.WhiteningBD(K, case['iPu'], case['nv'], case['pe'])}
+    for m in METRICS:
+        o = bd.EnhancedBD(K, case['iPu'], case['nv'], case['pe'])
+        o.set_ext_int_handling_metric(m, {'num_streams': case['ns'], 'modulator': make_modulator(case['mod']),
+                                          'packet_length': case['plen']} if m != 'None' else None)
+        solvers[m] = o
+    src = case['src']
+    nte = src[0] if len(src) == 1 else list(src)
+    for step, (how, order) in enumerate(case['steps']):
+        if how == 'randomize':
+            ch.set_channel_seed(int(rs.randint(1 << 30)))
+            ch.randomize(N, N, K, nte)
+        elif how == 'init':
+            full = (rs.randn(K * N, K * N + sum(src)) + 1j * rs.randn(K * N, K * N + sum(src))) * case.get('scale', 1.0)
+            ch.init_from_channel_matrix(full, np.ones(K, dtype=int) * N, np.ones(K, dtype=int) * N, K, nte)
+        elif how == 'pathloss':
+            pl = 10.0 ** rs.uniform(-3, 0, size=(K, K + len(src)))
+            ch.set_pathloss(pl[:, :K], pl[:, K:])
+        elif how == 'pathloss-off':
+            ch.set_pathloss(None)
+        ch.noise_var = case['nv']
+        h = np.array(ch.big_H_no_ext_int, copy=True)
+        full_now = np.array(ch.big_H, copy=True)
+        if np.linalg.cond(h) > 1e5:
+            continue
+        for name in order:
+            o = solvers[name]
+            tag = ('white' if name == 'white' else 'enh-' + name) + ':after-' + how
+            try:
+                ms, wk, ns = o.block_diagonalize_no_waterfilling(ch)
+            except Exception as e:
+                return ('R7:exception:%s:%s' % (type(e).__name__, tag), 'step %d: %r' % (step, e))
+            if not np.array_equal(ch.big_H, full_now):
+                return ('R7:shared-channel-modified:' + tag, 'step %d' % step)
+            r = check_offdiag(h, list(ms), N, 'R7:' + tag)
+            if r:
+                return (r[0], 'step %d (%s, solvers %s): %s' % (step, how, order, r[1]))
+            pw = np.array([nrm(m) ** 2 for m in ms])
+            if not np.all(np.abs(pw - case['iPu']) <= 1e-9 * case['iPu']):
+                return ('R7:power-not-exact:' + tag, 'step %d: %s' % (step, pw.tolist()))
+            # fresh objects with the current configuration
+            fcase = dict(case)
+            fcase.update({'variant': 'white' if name == 'white' else 'enh', 'metric': name, 'H': enc(h),
+                          'E': enc(full_now[:, K * N:])})
+            fcase.pop('history', None)
+            fo = fresh_solver(fcase)
+            fch = MU()
+            fch.init_from_channel_matrix(full_now, np.ones(K, dtype=int) * N, np.ones(K, dtype=int) * N, K, nte)
+            fch.noise_var = case['nv']
+            fms, fwk, fns = fo.block_diagonalize_no_waterfilling(fch)
+            for x, y in zip(list(ms) + list(wk) + [np.asarray(ns)], list(fms) + list(fwk) + [np.asarray(fns)]):
+                x, y = np.asarray(x), np.asarray(y)
+                if x.shape != y.shape or not np.abs(x - y).max() <= 1e-9 * max(nrm(y), 1e-300) * tol_scale(h):
+                    return ('R7:differs-from-fresh-objects:' + tag,
+                            'step %d (%s, solvers %s): long-lived objects give another result than fresh ones' % (step, how, order))
+    return None
+
+
+def o_history_bd(case):
+    """R7 for the plain BlockDiagonalizer: attribute changes and many channels on one object"""
+    got, _, _ = run_case(case)
+    ref, _, _ = run_case(plain_twin(case))
+    for a, b in zip(got, ref):
+        if a.shape != b.shape or not np.array_equal(a, b):
+            return ('R7:differs-from-fresh-objects:' + variant_tag(case), 'after %d earlier calls' % len(case['history']))
+    return None
+
+
 ORACLES = {
+    'robust.twin': o_twin,
+    'robust.immutable': o_immutable,
+    'robust.rejected': o_rejected,
+    'robust.boundary': o_boundary,
+    'robust.shared-channel': o_shared,
+    'robust.history': o_history_bd,
     'BlockDiagonalizer.scale_covariance': o_scale_covariance,
     'BlockDiagonalizer.block_diagonalize': o_bd_wf,
     'BlockDiagonalizer.block_diagonalize_no_waterfilling': o_bd_nowf,
@@ -588,10 +1259,21 @@ def run_oracle(ctx, call, case, key=None, nontrivial=True):
     try:
         r = ORACLES[call](case)
     except Exception as e:  # an exception where the property promises a value
-        r = ('exception:%s:%s' % (type(e).__name__, case['variant'] + ('-' + case['metric'] if 'metric' in case else '')),
-             repr(e)[:300])
+        r = ('exception:%s:%s%s%s' % (type(e).__name__, case['variant'] + ('-' + case['metric'] if 'metric' in case else ''),
+                                      (':' + rb_class(case)) if case.get('rb') else '',
+                                      ':long-lived' if case.get('history') else ''), repr(e)[:300])
     if r is not None:
-        ctx.fail(call, r[0], case, r[1])
+        cls = r[0]
+        if not call.startswith('robust.') and not cls.startswith('exception:'):
+            if case.get('rb'):
+                cls += ':' + ('R2' if set(case['rb']) <= {'layout'} else 'R1') + ':' + rb_class(case)
+            if case.get('history'):
+                cls += ':R7:long-lived'
+            if case.get('pe') == 0 and case['variant'] != 'bd':
+                cls += ':R5:pe=0'
+            if case.get('nv') == 0:
+                cls += ':R5:noise_var=0'
+        ctx.fail(call, cls, case, r[1])
         ctx.branch('oracle-fail:' + call)
     else:
         ctx.branch('oracle-ok:' + call)
@@ -761,7 +1443,7 @@ def corr_bd(ctx, L, case, idx):
     record_method(o, '_calc_BD_matrix_no_power_scaling', calc_log)
     record_method(o, '_perform_global_waterfilling_power_scaling', glob_log)
     with Tap(bd) as tap:
-        new_h, ms_good = o.block_diagonalize(h)
+        new_h, ms_good = o.block_diagonalize(h_arg(case))
     names = tap.names()
     if not ctx.corr('block_diagonalize.kernel-calls', case, 'calls=%s' % names,
                     'calls=%s' % (['matrix_rank', 'svd', 'svd'] * K + ['doWF']), key=key + ('calls-wf',)):
@@ -778,7 +1460,7 @@ def corr_bd(ctx, L, case, idx):
     noise_arg = wf_args[2] if len(wf_args) > 2 else wf[2].get('noiseVar')
     ok = float(wf_args[1]) == K * ipu and float(noise_arg) == nv
     ctx.corr('block_diagonalize.doWF-power-and-noise', case, 'P=%r N=%r' % (float(wf_args[1]), float(noise_arg)),
-             'P=%r N=%r' % (K * ipu, nv), key=key + ('wfargs',))
+             'P=%r N=%r' % (float(K * ipu), float(nv)), key=key + ('wfargs',))
     contract(ctx, 'doWF:nonneg', bool(np.all(p >= 0)) and bool(np.any(p > 0)), 'powers %s' % p.tolist(), case)
     contract(ctx, 'doWF:sum', abs(p.sum() - K * ipu) <= 1e-9 * K * ipu, 'sum %r vs %r' % (float(p.sum()), K * ipu), case)
     ctx.branch('wf:zero-power-streams' if np.any(p == 0) else 'wf:all-streams-powered')
@@ -836,7 +1518,7 @@ def corr_bd(ctx, L, case, idx):
     calc2 = []
     record_method(o2, '_calc_BD_matrix_no_power_scaling', calc2)
     with Tap(bd) as tap3:
-        new_h2, ms_good2 = o2.block_diagonalize_no_waterfilling(h)
+        new_h2, ms_good2 = o2.block_diagonalize_no_waterfilling(h_arg(case))
     if not ctx.corr('block_diagonalize_no_waterfilling.kernel-calls', case, 'calls=%s' % tap3.names(),
                     'calls=%s' % (['matrix_rank', 'svd', 'svd'] * K), key=key + ('calls-nowf',)):
         return
@@ -1219,9 +1901,55 @@ def materialise(L):
     return first, second
 
 
+def metric_line(op):
+    name, arg = op
+    if name in ('None', 'None-obj'):
+        return 'None:-:-:-'
+    if name in ('naive', 'fixed'):
+        return '%s:%s:-:-' % (name, arg if isinstance(arg, int) else '-')
+    if name == 'effective_throughput':
+        return 'effective_throughput:-:%s:%s' % ('-' if arg in ('no-modulator', 'missing') else '1',
+                                                 '-' if arg in ('no-length', 'missing') else '120')
+    return '%s:-:-:-' % name
+
+
+def corr_metric_histories(ctx, drv, rng, n):
+    """R4 / R7: histories of set_ext_int_handling_metric calls (valid and rejected) on one EnhancedBD object
+    against the model's state machine: state, exception and the path block_diagonalize_no_waterfilling takes"""
+    bd, _, _ = _impl()
+    lines, impls, cases = [], [], []
+    for _ in range(n):
+        ops = [tuple(rng.choice(METRIC_OPS)) for _ in range(rng.randint(1, 8))]
+        o = bd.EnhancedBD(2, 1.0, 0.1, 1.0)
+        taken = []
+        o._perform_BD_no_waterfilling_no_stream_reduction = lambda ch: taken.append('no-reduction')
+        o._perform_BD_no_waterfilling_fixed_or_naive_reduction = lambda ch: taken.append('fixed-or-naive')
+        o._perform_BD_no_waterfilling_decide_number_streams = lambda ch: taken.append('decide')
+        states = []
+        for op in ops:
+            err = do_metric_op(o, op)
+            args = o._metric_func_extra_args
+            o.block_diagonalize_no_waterfilling(None)
+            states.append('%s,%s,%s,%s,%s,%s,%s' % (
+                o.metric_name, getattr(o._metric_func, '__name__', None),
+                args.get('num_streams', '-'), '1' if 'modulator' in args else '-', args.get('packet_length', '-'),
+                err or 'ok', taken[-1]))
+            extra = sorted(set(args) - {'num_streams', 'modulator', 'packet_length'})
+            if extra:
+                states[-1] += ',extra-keys=%s' % extra
+        lines.append('metric ' + ';'.join(metric_line(op) for op in ops))
+        impls.append(';'.join(states))
+        cases.append({'ops': [list(op) for op in ops]})
+    out = drv.ask(lines)
+    for i, (impl, model, case) in enumerate(zip(impls, out, cases)):
+        ctx.corr('set_ext_int_handling_metric.history', case, impl, model, key=('metric-history', i))
+    ctx.branch('corr:metric-setter-histories', n)
+
+
 def correspondence(ctx, n_bd, n_white, n_enh):
     g = Gen(ctx.rng.fork('corr'))
     drv = core.Driver(DRIVER)
+    corr_metric_histories(ctx, drv, ctx.rng.fork('metric-histories'), 40 if ctx.tier == 'quick' else 400)
     jobs = []
     for i in range(n_bd):
         jobs.append(('bd', g.bd_case(), i))
@@ -1233,6 +1961,16 @@ def correspondence(ctx, n_bd, n_white, n_enh):
         for i, case in enumerate(sweep(g)):
             jobs.append(({'bd': 'bd', 'white': 'white', 'enh': 'enh'}[case['variant']], case, 100000 + i))
         ctx.branch('corr:sweep')
+    # robustness classes: exact element types, layouts, zero parameters, long-lived objects
+    gr = Gen(ctx.rng.fork('robust-corr'))
+    nrob = max(24, (n_bd + n_white + n_enh) // 3)
+    it = 0
+    for kind, case in robust_cases(gr, nrob):
+        if kind == 'typed' and narrow_array(case):
+            case = gr.typed_case(exact_only=True, dev=('H', case['rb']['H']))
+        robust_branch(ctx, kind, case, 'corr')
+        jobs.append((case['variant'], case, 200000 + it))
+        it += 1
     batch = 40
     for b0 in range(0, len(jobs), batch):
         L = Lines()
@@ -1316,19 +2054,102 @@ def oracles(ctx, n_bd, n_ext):
         ctx.branch('oracle:' + case['variant'] + (':' + case['metric'] if 'metric' in case else ''))
 
 
+def robust_cases(g, n):
+    """(kind, case) stream of the robustness classes; kinds: typed (R1/R2), history (R7), zero (R5 values that the
+    ordinary methods must digest)"""
+    devs = g.deviations()
+    off = g.rng.below(len(devs) - 12)
+    for i in range(n):
+        yield 'typed', g.typed_case(dev=devs[i] if i < 12 else devs[12 + (off + i) % (len(devs) - 12)])
+    for i in range(max(2, n // 2)):
+        yield 'history', g.history_case(variant=['bd', 'white', 'enh', 'enh', 'enh'][i % 5],
+                                        metric=METRICS[i % len(METRICS)])
+    for i in range(max(2, n // 4)):
+        c = g.ext_case(metric=METRICS[i % len(METRICS)])
+        c['pe'] = [0.0, 0][i % 2]
+        yield 'zero', c
+        c = g.bd_case()
+        c.pop('cov_scale', None)
+        c['nv'] = [0.0, 0][i % 2]
+        yield 'zero', c
+
+
+def robust_branch(ctx, kind, case, where):
+    rb = case.get('rb', {})
+    if kind == 'typed':
+        for f, t in rb.items():
+            if f == 'layout':
+                ctx.branch('%s:R2:layout:%s' % (where, t))
+                ctx.branch('%s:R2:layout' % where)
+            elif f == 'H':
+                ctx.branch('%s:R1:array:%s' % (where, 'narrow-float' if t in ('float32', 'complex64') else
+                                               'integer' if np.dtype(t).kind in 'iu' else 'float64'))
+            elif t in ('0d', '0d-int'):
+                ctx.branch('%s:R2:0d-scalar' % where)
+            else:
+                ctx.branch('%s:R1:scalar:%s' % (where, 'narrow-int' if t in ('int8', 'uint8', 'int16', 'uint16') else
+                                                'float16/32' if t in ('float16', 'float32') else 'other'))
+    elif kind == 'history':
+        ctx.branch('%s:R7:long-lived:%s' % (where, case['variant']))
+    else:
+        ctx.branch('%s:R5:zero-%s' % (where, 'pe' if case['variant'] != 'bd' else 'noise'))
+
+
+def robust_oracles(ctx, n):
+    g = Gen(ctx.rng.fork('robust-oracle'))
+    for kind, case in robust_cases(g, n):
+        robust_branch(ctx, kind, case, 'oracle')
+        if kind == 'typed':
+            run_oracle(ctx, 'robust.twin', case)
+        if kind == 'history' and case['variant'] == 'bd':
+            run_oracle(ctx, 'robust.history', case)
+        if not narrow_array(case):          # the first-principles property oracles on the same case
+            for call in calls_of(case):
+                run_oracle(ctx, call, case)
+    for i in range(max(3, n // 3)):
+        case = g.bd_case() if i % 3 == 0 else g.ext_case(metric=METRICS[i % len(METRICS)])
+        case.pop('cov_scale', None)
+        if i % 2:
+            case['rb'] = {'layout': g.rng.choice(LAYOUTS)}
+        run_oracle(ctx, 'robust.immutable', case)
+        ctx.branch('oracle:R3:immutability')
+    for i in range(max(3, n // 3)):
+        run_oracle(ctx, 'robust.rejected', g.rejected_case())
+        ctx.branch('oracle:R4:rejected-calls')
+        case = g.boundary_case(['iPu=0', 'K=1', 'noise-changed'][i % 3])
+        run_oracle(ctx, 'robust.boundary', case)
+        ctx.branch('oracle:R5:' + case['boundary'])
+        run_oracle(ctx, 'robust.shared-channel', g.shared_case())
+        ctx.branch('oracle:R7:shared-channel')
+
+
+ROBUST_BRANCHES = [
+    'oracle:R1:scalar:narrow-int', 'oracle:R1:scalar:float16/32', 'oracle:R1:array:integer', 'oracle:R1:array:narrow-float',
+    'oracle:R2:layout', 'oracle:R2:0d-scalar', 'oracle:R3:immutability', 'oracle:R4:rejected-calls', 'oracle:R5:iPu=0',
+    'oracle:R5:K=1', 'oracle:R5:noise-changed', 'oracle:R5:zero-pe', 'oracle:R5:zero-noise', 'oracle:R7:shared-channel',
+    'oracle:R7:long-lived:bd', 'oracle:R7:long-lived:white', 'oracle:R7:long-lived:enh',
+    'corr:R1:scalar:narrow-int', 'corr:R1:array:integer', 'corr:R2:layout', 'corr:R5:zero-pe', 'corr:R5:zero-noise',
+    'corr:R7:long-lived:bd', 'corr:R7:long-lived:white', 'corr:R7:long-lived:enh', 'corr:metric-setter-histories',
+    'scale:1e-12', 'scale:1e+12',
+]
+
+
 def check(ctx):
     ctx.rule = ('K in 2..4 users x N in 1..4 antennas per user (K.N <= 16; N >= 2 with external interference), square '
                 'full-rank channels (cond <= 1e4) drawn gaussian / real / Gaussian-integer / per-user path loss / '
-                'prescribed condition number; iPu in 1e-2..1e2, noise 1e-4..10 (low-SNR cases so that water-filling '
+                'prescribed condition number, times an overall scale in {1e-12,1e-9,1e-7,1e-6,1e-4,1,1e3,1e6,1e12} (noise following '
+                'with scale^2 or not; interferer scaled or not); iPu in 1e-2..1e2, noise 1e-4..10 (low-SNR cases so that water-filling '
                 'drops streams); external interference of rank 1-2 (one or two sources), pe 1e-2..1e2; all five '
-                'stream-reduction metrics, every num_streams; non-trivial = distinct (method, K, N, generator, case index, '
+                'stream-reduction metrics, every num_streams; robustness classes R1-R7 (element types, layouts, aliasing, '
+                'rejected calls, zero / boundary values, scale 1e-12..1e12, long-lived and shared objects); non-trivial = distinct (method, K, N, generator, case index, '
                 'compared quantity)')
     quick = ctx.tier == 'quick'
     scale = 1 if quick else 20
     core.prove(ctx, MODULE, generated=[], drivers=[DRIVER], scratch=ctx.scratch)
     ctx.required_branches = ['corr:bd', 'corr:white'] + ['corr:enh-' + m for m in METRICS] + \
         ['wf:zero-power-streams', 'wf:all-streams-powered', 'red:interference-free', 'red:interference-remains',
-         'size:K2', 'size:K3', 'size:K4', 'size:N1', 'size:N2', 'size:N3', 'size:N4']
+         'size:K2', 'size:K3', 'size:K4', 'size:N1', 'size:N2', 'size:N3', 'size:N4'] + \
+        ['scale:%g' % c for c in Gen.SCALES] + [b for b in ROBUST_BRANCHES if not b.startswith('scale:')]
     try:
         correspondence(ctx, 40 * scale, 20 * scale, 50 * scale)
     except core.Infra as e:
@@ -1337,6 +2158,7 @@ def check(ctx):
         ctx.notes.append('correspondence skipped: %s' % e)
         ctx.required_branches = []
     oracles(ctx, 60 * scale, 100 * scale)
+    robust_oracles(ctx, 48 * (1 if quick else 8))
 
 
 def search(ctx):
@@ -1344,5 +2166,6 @@ def search(ctx):
     before = len(ctx.failures)
     for _ in range(4):
         oracles(ctx, 150, 250)
+        robust_oracles(ctx, 100)
         if len(ctx.failures) > before:
             return
